@@ -155,6 +155,98 @@ def bool_skeleton(t):
     return r
 
 
+_hasstr_cache = {}
+_sabs_cache = {}
+
+
+def has_string_terms(t):
+    k = t.get_id()
+    r = _hasstr_cache.get(k)
+    if r is not None:
+        return r
+    r = False
+    if z3.is_expr(t):
+        sk = t.sort().kind()
+        if sk in (z3.Z3_SEQ_SORT, z3.Z3_RE_SORT):
+            r = True
+        else:
+            for c in t.children():
+                if has_string_terms(c):
+                    r = True
+                    break
+    _hasstr_cache[k] = r
+    return r
+
+
+def string_abstract(t):
+    """like bool_skeleton, but only atoms that mention strings are replaced by Boolean constants:
+    integer / real / enum / boolean reasoning stays exact"""
+    global _BOOL_OPS
+    if _BOOL_OPS is None:
+        bool_skeleton(z3.BoolVal(True))
+    k = t.get_id()
+    r = _sabs_cache.get(k)
+    if r is not None:
+        return r
+    if not has_string_terms(t):
+        r = t
+    elif z3.is_app(t) and z3.is_bool(t):
+        kind = t.decl().kind()
+        ch = t.children()
+        if kind in _BOOL_OPS:
+            args = [string_abstract(c) for c in ch]
+            if kind == z3.Z3_OP_AND:
+                r = z3.And(*args)
+            elif kind == z3.Z3_OP_OR:
+                r = z3.Or(*args)
+            elif kind == z3.Z3_OP_NOT:
+                r = z3.Not(args[0])
+            elif kind == z3.Z3_OP_IMPLIES:
+                r = z3.Implies(args[0], args[1])
+            else:
+                r = z3.Xor(args[0], args[1])
+        elif kind == z3.Z3_OP_ITE and z3.is_bool(ch[1]):
+            r = z3.If(string_abstract(ch[0]), string_abstract(ch[1]), string_abstract(ch[2]))
+        elif kind in (z3.Z3_OP_EQ, z3.Z3_OP_IFF) and len(ch) == 2 and z3.is_bool(ch[0]):
+            r = string_abstract(ch[0]) == string_abstract(ch[1])
+        else:
+            r = _abstract_atom(t, k)
+    else:
+        r = _abstract_atom(t, k)
+    _sabs_cache[k] = r
+    return r
+
+
+_len_terms = {}
+
+
+def _abstract_atom(t, k):
+    """an atom that mentions strings: keep it if the only string subterms are lengths (replaced by non-negative
+    integer constants), otherwise replace it by a Boolean constant"""
+    subs = []
+    stack = [t]
+    seen = set()
+    while stack:
+        e = stack.pop()
+        i = e.get_id()
+        if i in seen:
+            continue
+        seen.add(i)
+        if z3.is_app_of(e, z3.Z3_OP_SEQ_LENGTH):
+            c = _len_terms.get(i)
+            if c is None:
+                c = z3.Int("len!%d" % i)
+                _len_terms[i] = c
+            subs.append((e, c))
+            continue
+        stack.extend(e.children())
+    if subs:
+        t2 = z3.substitute(t, *subs)
+        if not has_string_terms(t2):
+            return t2
+    return z3.Bool("atom!%d" % k)
+
+
 class State:
     def __init__(self, eng):
         self.eng = eng
@@ -317,6 +409,7 @@ class Engine:
         self.inputs = {}
         self.stats = {"forks": 0, "feas_checks": 0, "feas_time": 0.0, "paths": 0, "inlined": set()}
         self.merge_calls = True
+        self.precise_strings = False
         self.class_cache = {}
         self.loop_invariants = {}
         self.post_init = {}
@@ -349,10 +442,20 @@ class Engine:
             return False
         s = z3.Solver()
         s.set("timeout", self.feas_timeout_ms)
-        for c in st.defs:
-            s.add(c)
-        for c in cs:
-            s.add(c)
+        if self.precise_strings:
+            for c in st.defs:
+                s.add(c)
+            for c in cs:
+                s.add(c)
+        else:
+            # stage 2: exact on integers / reals / enums / booleans, strings abstracted away (sound for pruning:
+            # an abstraction that is unsatisfiable makes the path condition unsatisfiable)
+            for c in st.defs:
+                s.add(string_abstract(c))
+            for c in cs:
+                s.add(string_abstract(c))
+            for c in _len_terms.values():
+                s.add(c >= 0)
         r = s.check()
         self.stats["feas_checks"] += 1
         self.stats["feas_time"] += time.time() - t0
